@@ -12,12 +12,12 @@ ENGINE_F = "F-fault-point-enumeration"
 CHECKS = {
  "C01": (ENGINE_A, "model_checking",
    "stateless model checking of the real Ingester (WAL on tmpfs): exhaustive DFS over schedules of 2 writers + flush timer at store-request / catalog-call / pause-point granularity with bounded preemptions, injected upload/registration errors (before/after effect) and up to two crash + restart rounds placed at every quiescent point",
-   "Real Ingester with WalSyncMode::EveryWrite, flush_row_count 2: 3 single-row writes from 2 writers + timer tick; plans: every single (thorough: double) fault position x 1 preemption; every crash point x 2 (3) preemptions; fault + crash; crash - restart - crash (two crashes placed anywhere, recovery itself may be crashed, a write after the first restart) over a multi-segment WAL (rotation on every entry; threshold 3); thorough adds all pause points, schema change (flush-before-append), two faults + crash, two writers with two crashes. Oracle after a fault-free final flush through the shutdown path: every id whose write() returned Ok is in a catalogued chunk (decoded from the raw store).",
+   "Real Ingester with WalSyncMode::EveryWrite, flush_row_count 2: 3 single-row writes from 2 writers + timer tick; plans: every single (thorough: double) fault position x 1 preemption; every crash point x 2 (3) preemptions; fault + crash; crash - restart - crash (two crashes placed anywhere, recovery itself may be crashed, a write after the first restart) over a multi-segment WAL (rotation on every entry; threshold 3); schema change (flush-before-append inside a write) with crash, fault + crash and two faults + crash; back-pressure (BufferFull rejections of logged writes) with crash and fault + crash; thorough adds all pause points, three preemptions, two writers with two crashes. Oracle after a fault-free final flush through the shutdown path: every id whose write() returned Ok is in a catalogued chunk (decoded from the raw store).",
    "a write that returned is durable (sync on every write, tmpfs); crash points are the quiescent points of the scheduler (tasks parked at gates; in-flight file operations complete first); torn WAL writes are C05's subject",
    "DESIGN.md section 5 C01"),
  "C02": (ENGINE_A, "model_checking",
    "stateless model checking of the real code: exhaustive DFS over all interleavings of 2-3 catalog clients at object-store-request granularity, with state caching; linearizability oracle by brute force",
-   "Every interleaving (2 clients: unbounded; 3 clients: preemption-bounded) of the real ObjectStoreMetadataClient mutation paths (register, delete, complete_compaction, complete_compaction_with_target), incl. create races, legacy-fallback reads, conflict/retry and retry exhaustion: 12-20 hand-written race programs plus the generated family of every unordered pair of client programs of 1..=2 operations over an 8-operation alphabet (quick: all 1-vs-1 and 1-vs-2 pairs and every 3rd 2-vs-2 pair, ~1.3 k programs / 50 k executions; thorough: all 2.6 k pairs); every catalog version checked for chunk-map/time-index agreement; final state must equal a real-time-consistent sequential order of exactly the Ok operations.",
+   "Every interleaving (2 clients: unbounded; 3 clients: preemption-bounded) of the real ObjectStoreMetadataClient mutation paths (register, delete, complete_compaction, complete_compaction_with_target), incl. create races, legacy-fallback reads, conflict/retry and retry exhaustion: 12-20 hand-written race programs plus the generated family of every unordered pair of client programs of 1..=2 operations over an 8-operation alphabet (quick: all 1-vs-1 and 1-vs-2 pairs and every 3rd 2-vs-2 pair; thorough: all 2.6 k pairs) and over a 5-operation alphabet on an empty store (create-if-absent race, legacy fallback; 465 pairs, quick every 2nd), ~1.5 k programs / 100 k executions in the quick tier; every catalog version checked for chunk-map/time-index agreement; final state must equal a real-time-consistent sequential order of exactly the Ok operations.",
    "InMemory object store's conditional PUT is atomic; one request = one atomic step; tokio back-off timers fire eagerly (no shared-state access between wake-up and next request)",
    "DESIGN.md section 5 C02"),
  "C03": (ENGINE_A, "model_checking",
@@ -51,13 +51,13 @@ CHECKS = {
    "all nodes read the same interposed wall clock; InMemory conditional PUT is atomic; holder belief after renew = wall clock at the renew call + 300 s (what the caller can know)",
    "DESIGN.md section 5 C08"),
  "C14": (ENGINE_F, "fault_enumeration",
-   "exhaustive fault/crash-point enumeration of the real ShardSplitter under the controlled scheduler: every request of the split x {error before effect, error after effect, crash}, followed by the documented recovery; thorough nests a second interruption",
-   "Real ShardSplitter over real Parquet chunks (rows below, at, above the split point) on both catalog back ends: for every object-store / catalog request of execute_split_with_monitoring and each mode in {fail-before, fail-after, crash}: recovery (resume_split up to 4 times on a fresh splitter, fresh split when nothing was recorded) must finish, and the final state must equal the uninterrupted one: two Active shards partitioning the range at the split point, old shard PendingDeletion, no split state / progress object, every old row in exactly one new shard on its side (split point to the upper shard) exactly once, no old-shard delete before the cut-over completed.",
+   "exhaustive fault/crash-point enumeration of the real ShardSplitter under the controlled scheduler: every request of the split x {error before effect, error after effect, crash}, followed by the documented recovery; a second interruption is nested at every request of the recovery run",
+   "Real ShardSplitter over real Parquet chunks (rows below, at, above the split point) on both catalog back ends: for every object-store / catalog request of execute_split_with_monitoring and each mode in {fail-before, fail-after, crash}, and for a second interruption (crash after error, crash after crash; thorough also error after error, 3-chunk shard) at every request of the recovery run: recovery (resume_split up to 4 times on a fresh splitter, fresh split when nothing was recorded) must finish, and the final state must equal the uninterrupted one: two Active shards partitioning the range at the split point, old shard PendingDeletion, no split state / progress object, every old row in exactly one new shard on its side (split point to the upper shard) exactly once, no old-shard delete before the cut-over completed.",
    "crash-after-request-i equals crash-before-request-i+1 (memory is lost); sleeps on virtual time; new shard ids are taken from the last progress object written",
    "DESIGN.md section 5 C14"),
  "C15": (ENGINE_C, "exploration",
    "bounded-exhaustive input enumeration against a reference: the real Ingester::write under split states installed through the real MetadataClient, decoded new-shard chunks compared with the accepted rows; QueryNode::query compared with the same SQL over a MemTable of each accepted row once; the de-duplication routine run on every bounded input",
-   "Routing: {in-memory, object-store catalog} x {Int64, Timestamp(ns)} x split points x 7 phase settings x all write histories of 1 write of <=3 rows over 12 (36) row values or 2 writes over ts {split-1, split, split+1} x metric x host x value: every accepted row in exactly one new shard on its side (split point to the upper shard), nothing outside DualWrite/Backfill. Reads: multisets of <=2 (3) rows + mixed-metric and two-write histories x 11 (19) queries incl. aggregates, judged after a flush in DualWrite/Backfill; a lifecycle walk through all phases; dedup routine on <=3 (4) rows x <=2 batches x Int64/Timestamp x Utf8/Utf8View. Both halves hold since the repair of the read half (c775b7b); the de-duplication routine, no longer on any query path, is exercised on every bounded input as an observation only.",
+   "Routing: {in-memory, object-store catalog} x {Int64, Timestamp(ns)} x split points x 7 phase settings x all write histories of 1 write of <=3 rows over 12 (36) row values or 2 writes over ts {split-1, split, split+1} x metric x host x value: every accepted row in exactly one new shard on its side (split point to the upper shard), nothing outside DualWrite/Backfill. Reads: multisets of <=2 (3) rows + mixed-metric and two-write histories x 11 (19) queries incl. aggregates, judged after a flush in DualWrite/Backfill; a lifecycle walk through all phases, also over a shard that already holds data laid out under its id (the real back-fill copies it); the two new-shard ids sort ascending in half of the cases and descending in the other half; dedup routine on <=3 (4) rows x <=2 batches x Int64/Timestamp x Utf8/Utf8View. Both halves hold since the repair of the read half (c775b7b); the de-duplication routine, no longer on any query path, is exercised on every bounded input as an observation only.",
    "a batch's shard is the one the ingester derives from its first row; Timestamp-typed writes rejected by dual-write are counted, not judged; fresh query node per check; DataFusion is evaluator and reference; frozen clock and entropy",
    "DESIGN.md section 5 C15"),
  "C16": (ENGINE_B, "model_checking",
@@ -92,8 +92,8 @@ CHECKS = {
    "DESIGN.md section 5 C09"),
  "C10": (ENGINE_A, "model_checking",
    "stateless model checking of the real QueryNode: exhaustive DFS over all interleavings of 2-3 queries at catalog-call and registration/planning pause-point granularity, each result compared with the same query run alone",
-   "One QueryNode over chunks in disjoint hours, cold or after having served other queries (non-initial table binding), with and without adaptive indexing; 2 queries (rows, aggregates) over disjoint / overlapping / subset / empty chunk selections, one of them possibly selecting the set bound last, a query against the historical phase of StreamingQueryExecutor::execute, 3 queries of which the third repeats the first; thorough: two tenants, two streaming subscriptions, three queries on a warm node; all interleavings (3 queries: 4 preemptions) of catalog calls and the pause points before registration and after planning; every result must equal the result of the same query alone on a fresh node.",
-   "DataFusion-internal waits resolve inside one step on the single-threaded runtime, so the interleaving granularity is register / plan / execute; queries use Int64 timestamps with integer literals",
+   "One QueryNode over chunks in disjoint hours, cold or after having served other queries (non-initial table binding), with and without adaptive indexing; 2 queries (rows, aggregates) over disjoint / overlapping / subset / empty chunk selections, one of them possibly selecting the set bound last, a query against the historical phase of StreamingQueryExecutor::execute, 3 queries of which the third repeats the first, and variants in which the first two chunk-data reads of every query are scheduling points (a query parked inside its registration while holding the lock); thorough: two tenants, two streaming subscriptions, three queries on a warm node; all interleavings (3 queries: 4 preemptions) of catalog calls and the pause points before registration and after planning; every result must equal the result of the same query alone on a fresh node.",
+   "DataFusion-internal waits resolve inside one step on the single-threaded runtime, so the interleaving granularity is register / plan / execute (plus the gated data reads); queries use Int64 timestamps with integer literals; every scenario starts from a node that has seen the files' schema (a vacuity guard fails the run if a query's time window is extracted as unbounded, i.e. if the selections cannot differ)",
    "DESIGN.md section 5 C10"),
  "C11": (ENGINE_B, "model_checking",
    "explicit-state breadth-first search over statement sequences against the real entry points; state = full world image (object listing with sizes/ETags/hashes, catalog, session catalogs/tables/options/functions/prepared statements, local files, probe queries on both nodes and a node started afterwards); every sequence re-executed on a freshly built world",
